@@ -395,6 +395,19 @@ def run_case(case):
             vs.append(viol("differs_from_reference_model", "%s: %s" % (where, d[0]), table=d[1], what=d[2], **tag))
             break
         states.append(core.jhash(model))
+        if relabel_only and not vs:
+            # the stored results follow the relabelling: read by element name they are the ones of the base run
+            kept = results_by_name(net)
+            for key, row in base_res.items():
+                if key not in kept:
+                    vs.append(viol("stored_results_lost", "%s: stored results of %s are gone after relabelling" % (where, key),
+                                   table=key[0], **tag))
+                    break
+                bad = [c for c, val in row.items() if not ((np.isnan(val) and np.isnan(kept[key][c])) or val == kept[key][c])]
+                if bad:
+                    vs.append(viol("stored_results_do_not_follow_relabelling", "%s: %s.%s was %r before, is %r at the element's new label" % (
+                        where, key, bad[0], row[bad[0]], kept[key][bad[0]]), table=key[0], **tag))
+                    break
         if vs:
             break
     if not vs:
